@@ -326,19 +326,32 @@ def insertSorted (x : String × String) : List (String × String) → List (Stri
 
 def sortKV (xs : List (String × String)) : List (String × String) := xs.foldr insertSorted []
 
-partial def printR : RExp → String
+def idxText : Idx → String
+  | .i n => s!"(i {n})"
+  | .k s => "(k " ++ hexOfStr s ++ ")"
+  | .none => "(u)"
+
+/-- `fs`: the `fork` annotations above (rendered inside the references they qualify, like
+the known indices of `RefExp.Forks`; sorted by call id, innermost annotation wins) -/
+partial def printRF (fs : List (String × Idx)) : RExp → String
   | .lit j => "(lit " ++ printJV j ++ ")"
-  | .arr xs => "(arr" ++ String.join (xs.map fun x => " " ++ printR x) ++ ")"
+  | .arr xs => "(arr" ++ String.join (xs.map fun x => " " ++ printRF fs x) ++ ")"
   | .map kvs => "(map" ++ kvText kvs ++ ")"
   | .struct kvs => "(st" ++ kvText kvs ++ ")"
-  | .ref node _ path => "(ref " ++ node ++ String.join (path.map fun p => " " ++ p) ++ ")"
-  | .split c _ e => "(split " ++ c ++ " " ++ printR e ++ ")"
-  | .merge c _ e => "(merge " ++ c ++ " " ++ printR e ++ ")"
-  | .disabled d v => "(dis " ++ printR d ++ " " ++ printR v ++ ")"
+  | .ref node _ path =>
+    "(ref " ++ node ++
+      String.join ((sortKV (fs.map fun e => (e.1, idxText e.2))).map fun e => " (fk " ++ e.1 ++ " " ++ e.2 ++ ")") ++
+      String.join (path.map fun p => " " ++ p) ++ ")"
+  | .split c _ e => "(split " ++ c ++ " " ++ printRF fs e ++ ")"
+  | .merge c _ e => "(merge " ++ c ++ " " ++ printRF fs e ++ ")"
+  | .disabled d v => "(dis " ++ printRF fs d ++ " " ++ printRF fs v ++ ")"
+  | .fork c ix e => printRF ((c, ix) :: fs.filter fun x => x.1 != c) e
 where
   kvText (kvs : List (String × RExp)) : String :=
-    String.join ((sortKV (kvs.map fun kv => (hexOfStr kv.1, printR kv.2))).map fun kv =>
+    String.join ((sortKV (kvs.map fun kv => (hexOfStr kv.1, printRF fs kv.2))).map fun kv =>
       " (kv " ++ kv.1 ++ " " ++ kv.2 ++ ")")
+
+def printR : RExp → String := printRF []
 
 def fqid (path : List String) : String := ".".intercalate path
 
